@@ -329,9 +329,9 @@ def printTop : TopItem → Str
 
 def printDoc (d : IDoc) : Str :=
   (match d.version with
-   | some v => "<?xml version=\"".toList ++ v ++ ['"'] ++
-       (match d.encoding with | some e => (if e.isEmpty then [] else " encoding=\"".toList ++ e ++ ['"']) | none => []) ++
-       (match d.standalone with | some b => " standalone=\"".toList ++ (if b then "yes" else "no").toList ++ ['"'] | none => []) ++
+   | some v => ['<', '?', 'x', 'm', 'l', ' ', 'v', 'e', 'r', 's', 'i', 'o', 'n', '=', '"'] ++ v ++ ['"'] ++
+       (match d.encoding with | some e => (if e.isEmpty then [] else [' ', 'e', 'n', 'c', 'o', 'd', 'i', 'n', 'g', '=', '"'] ++ e ++ ['"']) | none => []) ++
+       (match d.standalone with | some b => [' ', 's', 't', 'a', 'n', 'd', 'a', 'l', 'o', 'n', 'e', '=', '"'] ++ (if b then ['y', 'e', 's'] else ['n', 'o']) ++ ['"'] | none => []) ++
        ['?', '>']
    | none => []) ++ d.kids.flatMap printTop
 
